@@ -39,6 +39,12 @@ Section C19.
   (* the reported length is the number of occupied slots, and iteration yields exactly that many values *)
   Theorem C19_iteration_length t : RInv K P hash t -> RCnt K P t -> N.of_nat (length (occ_vals K P t (N.to_nat (rcap K P t)))) = rlen K P t.
   Proof. exact (iter_len K P hash t). Qed.
+  (* iteration yields exactly the stored entries and each key exactly once *)
+  Theorem C19_iteration_exactly_once t : RInv K P hash t ->
+    (forall k p, In (k, p) (occ_vals K P t (N.to_nat (rcap K P t))) <->
+       exists i, i < rcap K P t /\ is_occ K P (tget (slots K P t) i) = true /\ sval K P (tget (slots K P t) i) = Some (k, p)) /\
+    NoDup (map fst (occ_vals K P t (N.to_nat (rcap K P t)))).
+  Proof. exact (iter_exactly_once K P hash t). Qed.
   Theorem C19_new_is_well_formed : WF K P hash (new_raw K P).
   Proof. exact (WF_new K P hash). Qed.
 End C19.
@@ -48,4 +54,5 @@ Print Assumptions C19_every_history_from.
 Print Assumptions C19_lookup_terminates.
 Print Assumptions C19_clear.
 Print Assumptions C19_iteration_length.
+Print Assumptions C19_iteration_exactly_once.
 Print Assumptions C19_new_is_well_formed.
